@@ -65,6 +65,9 @@ func initProperties() {
 			Decides: "the clause `a path that does not fit the value's shape or the descriptor yields an error result, never a panic` and error propagation of the read walkers: descriptor lookups are nil-checked before use (NILLOOKUP), no fallible call's error is dropped or swallowed (DROPERR, ERRSWALLOW), size-guarded cursor functions get positive sizes (PANICARG), container counts are bounded (ALLOCBOUND), every search loop consumes (LOOPPROGRESS) and the unknown-field branches skip (UNKNOWNSKIP) — over package thrift/generic and the thrift skip/readers it uses.",
 			NotDec:  "that offsets, spans and values returned are the right ones (chained skip arithmetic is value-level); typed/untyped agreement; effect of each read option.",
 			Uses: uses(
+				use("RAWWIDTH", "scalar casts of a generic node are bounded by the node's length", nil),
+				use("UNKNOWNBREAK", "an unknown field does not end the field loop", thriftGeneric),
+				use("RANGECOPYWRITE", "reset loops write the elements, not per-iteration copies", thriftGeneric),
 				use("NILLOOKUP", "lookup results checked", anyOf(thriftGeneric, thriftPkg)),
 				use("DROPERR", "errors propagate", notFunc(mutators)),
 				use("ERRSWALLOW", "errors propagate", thriftGeneric),
@@ -89,12 +92,14 @@ func initProperties() {
 				use("KTETROLE", "key/element types not mixed up", thriftGeneric),
 				use("CLAUSEWIDTH", "fixed-width clauses use the label's width", anyOf(thriftGeneric, thriftPkg)),
 				use("ERRASSERT", "no unchecked error type assertion can panic", thriftGeneric),
+				use("DEADARM", "every error-classification arm can match a type the module boxes", thriftGeneric),
 				use("COUNTCMP", "index == count is out of range", anyOf(thriftGeneric, thriftPkg)),
 			)},
 		{ID: "C02", Title: "JSON->Thrift conversion encodes exactly the value the JSON denotes", QuickP: true,
 			Decides: "option plumbing into the native FSM (FLAGSYNC: every conv.Option that affects j2t reaches its own flag bit, flags recomputed after every options write), the native status is tested and handled (NATIVERET), and for the portable converter (config P): every JSON-kind case of doRecurse ends in a return (CASEEXIT), the portable code reads the same options the flag table maps (OPTAGREE), no error dropped (DROPERR), thrift type switch exhaustive (KINDEXH).",
 			NotDec:  "everything inside the native FSM (opaque machine code): number/escape handling, resumption after ERR_OOM_*, buffer-capacity independence; value equality of the output.",
 			Uses: uses(
+				use("ROOTSTRUCTNIL", "a non-struct root descriptor is not dereferenced as a struct", inPkgs("conv/j2t")),
 				use("FLAGSYNC", "options reach flags", nil),
 				use("NATIVERET", "native status handled", inPkgs("conv/j2t")),
 				use("SIZEPATCH", "portable converter patches placeholder container counts", inPkgs("conv/j2t")),
@@ -117,6 +122,8 @@ func initProperties() {
 			Decides: "balanced `{}`/`[]` on every success path of the t2j walkers (JSONPAIR — a necessary condition of `never malformed JSON with a nil error`), member keys come from one FieldDescriptor accessor everywhere (KEYSRC), thrift type switches are exhaustive (KINDEXH), unknown fields are an error exactly when disallowed and are otherwise skipped (NEGPOLARITY, UNKNOWNSKIP), no error dropped (DROPERR), loops consume (LOOPPROGRESS).",
 			NotDec:  "comma placement, numeric and string exactness, non-finite doubles (value-level).",
 			Uses: uses(
+				use("ROOTSTRUCTNIL", "a non-struct root descriptor is not dereferenced as a struct", inPkgs("conv/t2j")),
+				use("UNKNOWNBREAK", "an unknown field does not end the field loop", inPkgs("conv/t2j", "thrift")),
 				use("JSONPAIR", "balanced JSON", inPkgs("conv/t2j")),
 				use("KEYSRC", "declared keys", nil),
 				use("KINDEXH", "type switches exhaustive", inPkgs("conv/t2j")),
@@ -139,12 +146,15 @@ func initProperties() {
 			Decides: "every locator loop of the mutators has a not-found exit and no in-place size patch precedes a fallible step (NOTFOUNDEXIT), name->id translation checks the lookup (NILLOOKUP), in-place patching of the caller's bytes is confined to the mutators (INPUTRO), insertion errors propagate (DROPERR).",
 			NotDec:  "splice arithmetic, count/order after arbitrary histories, fork independence.",
 			Uses: uses(
+				use("INDEXLOWER", "a negative element index is rejected by the editors too", thriftGeneric),
 				use("NOTFOUNDEXIT", "absent element changes nothing", thriftGeneric),
 				use("NILLOOKUP", "name->id checked", funcHas("thrift/generic.Value).SetByPath", "thrift/generic.Value).UnsetByPath", "thrift/generic.GetDescByPath")),
 				use("INPUTRO", "patching confined", thriftGeneric),
 				use("DROPERR", "errors propagate", func(o *Obl) bool { return thriftGeneric(o) && mutators(o) }),
 				use("KINDEXH", "key/type switches exhaustive", thriftGeneric),
 				use("SWAPBOTH", "multi-set sort permutes old and new nodes together", thriftGeneric),
+				use("LESSTIE", "multi-set orders an insertion point before the element starting at the same address", thriftGeneric),
+				use("LASTSTEPONLY", "only a missing LAST step is insertable", thriftGeneric),
 				use("COUNTCMP", "index == count addresses nothing", thriftGeneric),
 				use("WALKADVANCE", "name->id translation resolves against the parent of the addressed element", thriftGeneric),
 				use("MAPKEYTYPE", "new map keys are encoded by the key type", thriftGeneric),
@@ -156,6 +166,7 @@ func initProperties() {
 			Decides: "the by-id slot threshold is compared identically at load, lookup and store (THRESHAGREE), PathNode.marshal covers every thrift type and writes headers before elements (KINDEXH, HDRFIRST), child-slice growth is bounded by the input (ALLOCBOUND), Marshal copies out of the pooled buffer (POOLESCAPE).",
 			NotDec:  "losslessness itself, hash-slot reuse across loads, stale entries.",
 			Uses: uses(
+				use("PROBEWRAP", "hash probing wraps the slot pointer with the slot index", thriftGeneric),
 				use("THRESHAGREE", "slot choice agrees", nil),
 				use("KINDEXH", "marshal covers all types", funcHas("thrift/generic.PathNode")),
 				use("HDRFIRST", "header before elements", funcHas("thrift/generic.PathNode")),
@@ -173,6 +184,9 @@ func initProperties() {
 			Decides: "for every function of both protocols, both generic packages and the four converters, in both build configurations: every cursor loop consumes input or leaves (LOOPPROGRESS), no input-derived count sizes an allocation unbounded (ALLOCBOUND), size-guarded functions never get a non-positive size (PANICARG), descriptor lookups on input-derived ids are nil-checked (NILLOOKUP), input-driven recursion carries a depth budget (RECDEPTH), no decoder error is dropped or swallowed (DROPERR, ERRSWALLOW).",
 			NotDec:  "out-of-bounds reads through unsafe (NewNode header peeks, DecodeString trusting a length — needs value ranges), panics inside sonic or the native blob, wall-clock bounds.",
 			Uses: uses(
+				use("ROOTSTRUCTNIL", "a non-struct root descriptor is not dereferenced as a struct", nil),
+				use("RAWWIDTH", "scalar casts of a generic node are bounded by the node's length", nil),
+				use("PREFIXBOUND", "a decoded length is compared with the bytes after its prefix", nil),
 				use("LOOPPROGRESS", "never loops without consuming", nil),
 				use("ALLOCBOUND", "allocation bounded by input", nil),
 				use("PANICARG", "no explicit-size panic", nil),
@@ -189,11 +203,15 @@ func initProperties() {
 				use("HDRUSED", "container header types checked", nil),
 				use("COUNTCMP", "no element read one past the header count", nil),
 				use("DEADCMP", "limit guards are not dead by type range", nil),
+				use("STACKCAP", "a fixed-capacity stack has a slot for every value of its stack pointer", nil),
+				use("REPEATCOUNT", "the error renderer cannot panic on a negative padding", nil),
+				use("ASSERTFAILUSE", "no use of a failed assertion's zero value", nil),
 				use("UNUSEDBOUND", "length / depth bounds handed to a walker are used", nil),
 				use("SENTINELPOS", "negative `none` positions never reach a slicing callee", nil),
 				use("NILGUARDAGREE", "optional collaborators are nil-tested at every call site", nil),
 				use("CURSORREL", "the cursor only moves relatively (a callee's byte count is added, never assigned)", nil),
 				use("ERRASSERT", "no unchecked error type assertion can panic", nil),
+				use("DEADARM", "every error-classification arm can match a type the module boxes", nil),
 				use("WIREEXH", "group / invalid wire types are an error, not a silent no-op", nil),
 				use("NEXTERR", "no node is cut from the span of a failed iterator step", nil),
 				use("PACKEDKIND", "packed payloads are walked by the element kind", nil),
@@ -207,6 +225,12 @@ func initProperties() {
 			Decides: "unknown field numbers in the message cannot crash reads (NILLOOKUP over proto/generic), kind/wire-type/packedness tables match the protobuf spec (KINDTABLE — they drive every skip), errors propagate (DROPERR, ERRSWALLOW), search loops consume (LOOPPROGRESS), unknown fields are skipped (UNKNOWNSKIP).",
 			NotDec:  "positions/values, packed/unpacked boundaries, empty sub-messages.",
 			Uses: uses(
+				use("TYPESWITCHAGREE", "unhashable map keys are boxed before use", protoGeneric),
+				use("DUALEXIT", "index == element count is not-found, not the bytes after the list", protoGeneric),
+				use("PREFIXBOUND", "a decoded length is compared with the bytes after its prefix", nil),
+				use("KINDNAME", "each kind's clause calls the primitive named after that kind (signedness / width)", nil),
+				use("UNKNOWNBREAK", "an unknown field does not end the field loop", anyOf(protoGeneric, protoBinary)),
+				use("RANGECOPYWRITE", "reset loops write the elements, not per-iteration copies", protoGeneric),
 				use("NILLOOKUP", "lookups checked", protoGeneric),
 				use("KINDTABLE", "wire tables = spec", nil),
 				use("DROPERR", "errors propagate", func(o *Obl) bool { return protoGeneric(o) && !mutators(o) }),
@@ -235,12 +259,16 @@ func initProperties() {
 				use("PACKEDKIND", "packed payloads are walked by the element kind", nil),
 				use("LENZERO", "empty length-delimited payloads are accepted", anyOf(protoGeneric, protoBinary)),
 				use("ERRASSERT", "no unchecked error type assertion can panic", protoGeneric),
+				use("DEADARM", "every error-classification arm can match a type the module boxes", protoGeneric),
 				use("COUNTCMP", "index == count is out of range", protoGeneric),
 			)},
 		{ID: "C08", Title: "Protobuf->JSON conversion emits valid JSON denoting exactly the message",
 			Decides: "balanced JSON on every success path of p2j (JSONPAIR), every legal map-key kind is quoted (MAPKEYQUOTE), unsigned kinds are not routed through a signed formatter (SIGNCONV), the kind switch covers the 15 scalar kinds + MESSAGE (KINDEXH), list/map loops consume and stop on errors (LOOPPROGRESS, DROPERR), unknown = error iff disallowed (NEGPOLARITY).",
 			NotDec:  "float exactness, comma placement.",
 			Uses: uses(
+				use("OPTPRESENCE", "[packed = false] is read only where the option is present", nil),
+				use("KINDNAME", "each kind's clause calls the primitive named after that kind (signedness / width)", nil),
+				use("UNKNOWNBREAK", "an unknown field does not end the field loop", inPkgs("conv/p2j")),
 				use("JSONPAIR", "balanced JSON", inPkgs("conv/p2j")),
 				use("MAPKEYQUOTE", "map keys quoted", nil),
 				use("UNSIGNEDWIDEN", "unsigned 32-bit kinds are not sign-extended", inPkgs("conv/p2j", "proto/binary")),
@@ -264,6 +292,7 @@ func initProperties() {
 			Decides: "the visitor's kind switches accept every kind the spec allows for a JSON number/string/bool and map key (KINDEXH), per-kind writer primitives match the spec (RWPAIR), tags use real wire types and map entries use field numbers 1/2 (TAGTYPE, MAPTAG), parse errors are not blanked (DROPERR), unknown = error iff disallowed (NEGPOLARITY).",
 			NotDec:  "speculative-length shifting at 127/128/16383 (value-level; pairing across sonic callbacks is dynamic), range checks.",
 			Uses: uses(
+				use("KINDNAME", "each kind's clause calls the primitive named after that kind (signedness / width)", nil),
 				use("KINDEXH", "kinds accepted", inPkgs("conv/j2p")),
 				use("RWPAIR", "writer primitives per kind", nil),
 				use("UNSIGNEDWIDEN", "unsigned 32-bit kinds are not sign-extended", inPkgs("conv/j2p", "proto/binary")),
@@ -275,6 +304,9 @@ func initProperties() {
 				use("NILLOOKUP", "lookups checked", inPkgs("conv/j2p")),
 				use("GROWCOPY", "speculative length re-allocation keeps the payload", nil),
 				use("DEADCMP", "the nesting-depth limit is representable in the stack pointer type", inPkgs("conv/j2p")),
+				use("STACKCAP", "the nesting stack has a slot for every value of the stack pointer", inPkgs("conv/j2p")),
+				use("FRAMEWRITE", "a value that opens no frame does not deepen the nesting stack (JSON null)", inPkgs("conv/j2p")),
+				use("MSGDESCNIL", "a JSON object for a scalar field is a mismatch error, not a nil message descriptor", inPkgs("conv/j2p")),
 				use("UNKNOWNSKIP", "disallow option honoured at every lookup", inPkgs("conv/j2p")),
 				use("POOLESCAPE", "result copied out of the pooled buffer", inPkgs("conv/j2p")),
 				use("POOLFIELD", "the protocol object behind the returned bytes is not recycled", inPkgs("conv/j2p")),
@@ -287,6 +319,11 @@ func initProperties() {
 			Decides: "inserted tags carry a real wire type and map entries key=1/value=2 (TAGTYPE, MAPTAG), speculative lengths are finished on every path of PathNode.marshal (SPECLENPAIR), name->number translation is nil-checked (NILLOOKUP), insertion/tag errors propagate (DROPERR), the delete locator has a not-found exit (NOTFOUNDEXIT).",
 			NotDec:  "updateByteLen ancestor-length arithmetic.",
 			Uses: uses(
+				use("INDEXLOWER", "a negative element index is rejected by lookups and editors", protoGeneric),
+				use("DUALEXIT", "index == element count is not-found, not the bytes after the list", protoGeneric),
+				use("KINDNAME", "each kind's clause calls the primitive named after that kind (signedness / width)", nil),
+				use("LASTSTEPONLY", "only a missing LAST step is insertable", protoGeneric),
+				use("LESSTIE", "multi-set splices edits in start-address order", func(o *Obl) bool { return protoGeneric(o) && strings.Contains(o.Key, "primary key") }),
 				use("TAGTYPE", "tag wire types", protoGeneric),
 				use("MAPTAG", "map entry numbers", protoGeneric),
 				use("MAPKEYTYPE", "new map keys are encoded by the key kind", protoGeneric),
@@ -310,6 +347,7 @@ func initProperties() {
 			Decides: "every success return of thrift marshalTo has consumed from the source and produced output (MUSTCONSUME: identical descriptors must copy, not drop), headers precede elements (HDRFIRST), proto marshalTo finishes its lengths and propagates nested errors (SPECLENPAIR, DROPERR), unknown fields are skipped/rejected per option (UNKNOWNSKIP, NEGPOLARITY), lookups checked (NILLOOKUP), recursion bounded (RECDEPTH), MarshalTo copies out of the pooled buffer (POOLESCAPE).",
 			NotDec:  "that the output is exactly the projection.",
 			Uses: uses(
+				use("UNKNOWNBREAK", "an unknown field does not end the field loop", anyOf(thriftGeneric, protoGeneric)),
 				use("MUSTCONSUME", "copy, never drop", nil),
 				use("BMSET", "written fields are recorded in the requires bitmap", thriftGeneric),
 				use("HDRFIRST", "header first", funcHas("generic.marshalTo")),
@@ -329,6 +367,8 @@ func initProperties() {
 			Decides: "no function reachable (VTA call graph) from a read-side entry point writes descriptor state (DESCIMMUT), a package-level variable (GLOBALWRITE), the caller's input bytes (INPUTRO) or a converter receiver — hence concurrent read-side calls share only immutable data and sync.Pool objects; pooled buffers are never returned, stored in caller-visible memory or used after Put (POOLESCAPE).",
 			NotDec:  "result equality under interleavings, dirty pooled bitmaps (value-level), user-supplied http getters.",
 			Uses: uses(
+				use("PARAMFORWARD", "an option parameter reaches every call of the callee it is forwarded to (copyString covers keys and values)", nil),
+				use("RANGECOPYWRITE", "reset loops write the elements, not per-iteration copies", nil),
 				use("DESCIMMUT", "descriptors immutable", nil),
 				use("GLOBALWRITE", "no global writes", nil),
 				use("INPUTRO", "input read-only", nil),
@@ -350,6 +390,8 @@ func initProperties() {
 			Decides: "every name map that is filled is built (BUILDPAIR: without Build every key lookup returns nil), trie/hash Set and Get derive slots through the same helper (SEQAGREE), descriptors are not written after parsing (DESCIMMUT).",
 			NotDec:  "fidelity to the IDL, default values, requiredness under options, the native trie_get/hm_get twins, adversarial keys.",
 			Uses: uses(
+				use("PROBEWRAP", "hash probing wraps the slot pointer with the slot index", inPkgs("internal/caching")),
+				use("IDUPPERCONST", "the shared id table has no protocol-specific upper bound", nil),
 				use("BUILDPAIR", "maps built", inPkgs("thrift", "internal/util")),
 				use("SEQAGREE", "set/get agree", nil),
 				use("DESCIMMUT", "descriptors immutable", nil),
@@ -364,12 +406,15 @@ func initProperties() {
 				use("DIVZERO", "name-index hash arithmetic never divides by zero", inPkgs("internal/caching", "internal/util")),
 				use("SERVICEONLY", "…ServiceOnly modes expose one service's methods", inPkgs("thrift")),
 				use("KEYBOTH", "MapFieldUseBoth registers alias and name", nil),
+				use("KEYNORM", "annotation registry keys are normalised alike on registration and lookup", nil),
 				use("TARGETAFFINITY", "each type is parsed for the target it belongs to", nil),
 			)},
 		{ID: "C15", Title: "Protobuf descriptors mirror the schema",
 			Decides: "the compiling cache is keyed injectively (CACHEKEY: message types sharing a simple name get distinct descriptors), kind/wire/packedness tables match the spec (KINDTABLE), name maps are built (BUILDPAIR).",
 			NotDec:  "field-by-field fidelity, streaming flags.",
 			Uses: uses(
+				use("OPTPRESENCE", "[packed = false] is read only where the option is present", nil),
+				use("IDUPPERCONST", "the shared id table has no protocol-specific upper bound", nil),
 				use("CACHEKEY", "descriptor identity", nil),
 				use("KINDTABLE", "tables = spec", nil),
 				use("BUILDPAIR", "maps built", inPkgs("proto", "internal/util")),
@@ -385,6 +430,7 @@ func initProperties() {
 			Decides: "each write/disallow option reaches its own flag bit with the documented polarity (FLAGSYNC), options reach the matching parameter of HandleRequires/CheckRequires/EncodeText/ReadAnyWithDesc (ARGSWAP), an unknown member is an error exactly when disallowed and is otherwise skipped (NEGPOLARITY, UNKNOWNSKIP), unset fields are written under the same key as present ones (KEYSRC), the descriptor's requires bitmap is only copied, never written (DESCIMMUT).",
 			NotDec:  "the truth table itself under dirty bitmaps and ids > 64/256.",
 			Uses: uses(
+				use("UNKNOWNBREAK", "an unknown field does not end the field loop", nil),
 				use("FLAGSYNC", "option -> flag", nil),
 				use("ARGSWAP", "option -> parameter", nil),
 				use("NEGPOLARITY", "unknown = error iff disallowed", nil),
@@ -400,6 +446,7 @@ func initProperties() {
 			Decides: "each annotation key maps to the type whose Request/Response calls the getter/setter of its declared source (ANNOTABLE), the first listed source with a value wins (FIRSTWINS), HTTPConv really enables mapping before flags are computed (FLAGSYNC), fallback options reach the right parameters (ARGSWAP), mapping errors are not dropped (DROPERR).",
 			NotDec:  "precedence/fallback decision table, field-cache replay in the native converter.",
 			Uses: uses(
+				use("BODYNIL", "a request without a body is an empty body, not a nil dereference", nil),
 				use("ANNOTABLE", "annotation -> source", nil),
 				use("BMSET", "http-mapped fields are recorded in the requires bitmap", inPkgs("conv/j2t", "conv/t2j")),
 				use("NILGUARDAGREE", "an absent ResponseSetter/RequestGetter never reaches the mapping code", nil),
@@ -436,6 +483,7 @@ func initProperties() {
 			Decides: "skip width = read width = write width per fixed-size type (WIDTHTABLE), container/field headers precede elements in the generic writers (HDRFIRST), structs are closed with STOP (STRUCTPAIR), casted values are the ones written (CASTUSED), precomputed header/footer issue the same writer sequence as WrapBinaryBody (SEQAGREE), type switches exhaustive (KINDEXH), counts bounded (ALLOCBOUND), no size panics (PANICARG).",
 			NotDec:  "value round-trips.",
 			Uses: uses(
+				use("PARAMFORWARD", "an option parameter reaches every call of the callee it is forwarded to (copyString covers keys and values)", nil),
 				use("WIDTHTABLE", "widths agree", nil),
 				use("CLAUSEWIDTH", "fixed-width clauses use the label's width", thriftPkg),
 				use("CURSORREL", "the cursor only moves relatively", thriftPkg),
@@ -461,6 +509,8 @@ func initProperties() {
 				use("RECDEPTH", "recursion budget", thriftPkg),
 				use("TYPESWITCHAGREE", "unhashable map keys boxed by every decoder", thriftPkg),
 				use("HDRUSED", "container header types checked", thriftPkg),
+				use("TWINCMP", "set and list headers are bounded alike", thriftPkg),
+				use("ASSERTFAILUSE", "no arm of a Go-type dispatch uses the value of another arm's failed assertion", thriftPkg),
 				use("COUNTCMP", "element loops stop at the header count", thriftPkg),
 				use("POOLRESET", "recycled protocol objects fully reset", thriftPkg),
 				use("WIDTHTABLE", "skip = read = write width", nil),
@@ -470,6 +520,7 @@ func initProperties() {
 			Decides: "per kind, the descriptor-driven reader and writer use inverse wire primitives matching the spec incl. zig-zag (RWPAIR), unrolled varint stages follow the template (VARINTTEMPLATE), kind/wire tables = spec (KINDTABLE), option/flag arguments are passed in parameter order (ARGSWAP), map entries key=1/value=2 (MAPTAG), speculative lengths finished and writer errors propagated in WriteList/WriteMap/WriteMessageFields (SPECLENPAIR, DROPERR), no size panics (PANICARG).",
 			NotDec:  "byte-identity with the reference encoder.",
 			Uses: uses(
+				use("KINDNAME", "each kind's clause calls the primitive named after that kind (signedness / width)", nil),
 				use("RWPAIR", "reader/writer symmetric", nil),
 				use("UNSIGNEDWIDEN", "unsigned 32-bit kinds are not sign-extended", nil),
 				use("MSGNARROW", "repeated/map walkers cannot leave the embedded message", protoBinary),
@@ -489,6 +540,7 @@ func initProperties() {
 				use("DROPERR", "errors propagate", protoBinary),
 				use("ERRSWALLOW", "errors propagate", protoBinary),
 				use("PANICARG", "no size panic", protoBinary),
+				use("ASSERTFAILUSE", "no arm of a Go-type dispatch uses the value of another arm's failed assertion", protoBinary),
 				use("NEGPOLARITY", "unknown handling", protoBinary),
 				use("UNKNOWNSKIP", "unknown skipped", protoBinary),
 				use("LOOPPROGRESS", "loops consume", protoBinary),
